@@ -176,6 +176,21 @@ fn full_alphabet() -> Vec<Op> {
 }
 
 /// 12-operation sub-alphabet for the deep run (the operations that restructure the store + the simplest writers).
+fn magnitude_alphabet() -> Vec<Op> {
+    vec![
+        Op::SetValue { c: 1, r: 1, v: "a" },
+        Op::SetValue { c: 2, r: 16386, v: "deep" },
+        Op::SetCell { c: 2, r: 1, v: "s", st: 0 },
+        Op::Remove { c: 1, r: 16385 },
+        Op::Remove { c: 2, r: 2 },
+        Op::InsRow { p: 2, n: 3 },
+        Op::RemRow { p: 1, n: 1 },
+        Op::InsCol { p: 1, n: 2 },
+        Op::RemCol { p: 2, n: 1 },
+        Op::Move { range: "A1:B2", dr: 1, dc: 1 },
+    ]
+}
+
 fn deep_alphabet() -> Vec<Op> {
     vec![
         Op::SetValue { c: 1, r: 1, v: "a" },
@@ -237,7 +252,7 @@ fn apply(ws: &mut Worksheet, op: &Op) {
 // ---------------------------------------------------------------------------------------------
 // seeds
 
-const SEEDS: [&str; 4] = ["empty", "dense-3x3", "sparse+far", "loaded-from-saved-file"];
+const SEEDS: [&str; 5] = ["empty", "dense-3x3", "sparse+far", "loaded-from-saved-file", "magnitudes"];
 
 fn seed_book(i: usize) -> Spreadsheet {
     let mut b = new_file();
@@ -264,6 +279,13 @@ fn seed_book(i: usize) -> Spreadsheet {
             ws.get_row_dimension_mut(&2).set_height(30.0);
             ws.get_column_dimension_by_number_mut(&2).set_width(20.0);
             ws.add_merge_cells("AD20:AE20"); // away from the removal bands (merges inside a removed band are a C07 matter)
+        }
+        4 => {
+            // coordinates of every magnitude: rows beyond the highest COLUMN number (16384), beyond 65536, the grid corners
+            let ws = b.get_sheet_mut(&0).unwrap();
+            for (c, r) in [(1u32, 1u32), (1, 16384), (1, 16385), (1, 1000000), (16000, 1), (16000, 16385), (16, 65537), (2, 2)] {
+                ws.get_cell_mut((c, r)).set_value(format!("m{}x{}", c, r));
+            }
         }
         _ => {
             {
@@ -364,11 +386,14 @@ fn observe(ws: &Worksheet) -> Obs {
     let mut rows: Vec<(u32, u32)> = ws.get_row_dimensions_to_hashmap().iter().map(|(k, r)| (*k, *r.get_row_num())).collect();
     rows.sort();
     // query window: everything any structure mentions, plus one beyond, at least the fixed scan area
-    let mut maxr = SCAN_ROWS;
-    let mut maxc = SCAN_COLS;
+    // (a SET of rows / columns, not a dense range: a cell at row 1048576 adds two rows to the window, not a million)
+    let mut qrows: BTreeSet<u32> = (0..=SCAN_ROWS).collect();
+    let mut qcols: BTreeSet<u32> = (0..=SCAN_COLS).collect();
     let mut see = |rc: &RC| {
-        maxr = maxr.max(rc.0.saturating_add(1));
-        maxc = maxc.max(rc.1.saturating_add(1));
+        qrows.insert(rc.0);
+        qrows.insert(rc.0.saturating_add(1));
+        qcols.insert(rc.1);
+        qcols.insert(rc.1.saturating_add(1));
     };
     for (k, o) in &cells {
         see(k);
@@ -383,11 +408,9 @@ fn observe(ws: &Worksheet) -> Obs {
     if let Ok((c, r)) = &highest {
         see(&(*r, *c));
     }
-    let maxr = maxr.min(4096);
-    let maxc = maxc.min(4096);
     let mut by_row = vec![];
     let mut by_row_hm = vec![];
-    for r in 0..=maxr {
+    for r in qrows {
         by_row.push((r, guard(|| ws.get_collection_by_row(&r).iter().map(|c| own(c)).collect::<Vec<_>>())));
         by_row_hm.push((
             r,
@@ -400,7 +423,7 @@ fn observe(ws: &Worksheet) -> Obs {
     }
     let mut by_col = vec![];
     let mut by_col_hm = vec![];
-    for c in 0..=maxc {
+    for c in qcols {
         by_col.push((c, guard(|| ws.get_collection_by_column(&c).iter().map(|x| own(x)).collect::<Vec<_>>())));
         by_col_hm.push((
             c,
@@ -499,6 +522,11 @@ fn value_unset(v: &CellValue) -> bool {
 }
 
 fn check_range(o: &mut Out, ws: &Worksheet, s: &BTreeSet<RC>, r0: u32, c0: u32, r1: u32, c1: u32) {
+    // the accessor lists every POSITION of the rectangle: a bounding box reaching to the far end of the grid (seed
+    // `magnitudes`) is not queried (bound stated in the evidence)
+    if (r1 - r0 + 1) as u64 * (c1 - c0 + 1) as u64 > 4096 {
+        return;
+    }
     let range = format!("{}:{}", a1(c0, r0), a1(c1, r1));
     let vals: Vec<&CellValue> = match guard(|| ws.get_cell_value_by_range(&range)) {
         Err(m) => {
@@ -1085,6 +1113,8 @@ impl Machine for Mach {
 
 struct Hist {
     name: &'static str,
+    /// indexes into SEEDS
+    seed_ids: Vec<usize>,
     ops: Vec<Op>,
     depth: usize,
     prefix_len: usize,
@@ -1095,7 +1125,7 @@ impl Hist {
         (self.ops.len() as u64).pow(self.prefix_len as u32)
     }
     fn decode(&self, i: u64) -> (usize, Vec<usize>) {
-        let seed = (i / self.per_seed()) as usize;
+        let seed = self.seed_ids[(i / self.per_seed()) as usize];
         let mut rest = i % self.per_seed();
         let n = self.ops.len() as u64;
         let mut p = vec![0usize; self.prefix_len];
@@ -1108,7 +1138,7 @@ impl Hist {
 }
 impl Space for Hist {
     fn len(&self) -> u64 {
-        SEEDS.len() as u64 * self.per_seed()
+        self.seed_ids.len() as u64 * self.per_seed()
     }
     fn describe(&self, i: u64) -> Value {
         let (seed, p) = self.decode(i);
@@ -1184,9 +1214,12 @@ impl Space for Hist {
 
 pub fn space(tier: Tier, id: &str) -> Option<Box<dyn Space>> {
     match (tier, id) {
-        (Tier::Quick, "d3") => Some(Box::new(Hist { name: "d3", ops: full_alphabet(), depth: 3, prefix_len: 1, save_max_depth: 2 })),
-        (Tier::Thorough, "d4") => Some(Box::new(Hist { name: "d4", ops: full_alphabet(), depth: 4, prefix_len: 1, save_max_depth: usize::MAX })),
-        (Tier::Thorough, "d6") => Some(Box::new(Hist { name: "d6", ops: deep_alphabet(), depth: 6, prefix_len: 2, save_max_depth: usize::MAX })),
+        (Tier::Quick, "d3") => Some(Box::new(Hist { name: "d3", seed_ids: vec![0, 1, 2, 3], ops: full_alphabet(), depth: 3, prefix_len: 1, save_max_depth: 2 })),
+        (Tier::Thorough, "d4") => Some(Box::new(Hist { name: "d4", seed_ids: vec![0, 1, 2, 3], ops: full_alphabet(), depth: 4, prefix_len: 1, save_max_depth: usize::MAX })),
+        (Tier::Thorough, "d6") => Some(Box::new(Hist { name: "d6", seed_ids: vec![0, 1, 2, 3], ops: deep_alphabet(), depth: 6, prefix_len: 2, save_max_depth: usize::MAX })),
+        // the seed with coordinates of every magnitude meets an alphabet without the operations that fill whole rows /
+        // columns up to the highest used one (copy styling, cleanup): 10 operations, depth 2 (thorough 3)
+        (_, "magnitudes") => Some(Box::new(Hist { name: "magnitudes", seed_ids: vec![4], ops: magnitude_alphabet(), depth: if tier == Tier::Thorough { 3 } else { 2 }, prefix_len: 1, save_max_depth: 1 })),
         _ => None,
     }
 }
@@ -1197,7 +1230,7 @@ fn replay(tier: Tier, case: &Value) -> Vec<Violation> {
 
 fn run(ctx: &Ctx) -> i32 {
     let thorough = ctx.tier == Tier::Thorough;
-    let ids: Vec<&'static str> = if thorough { vec!["d4", "d6"] } else { vec!["d3"] };
+    let ids: Vec<&'static str> = if thorough { vec!["d4", "d6", "magnitudes"] } else { vec!["d3", "magnitudes"] };
     let spaces = ids.iter().map(|id| (*id, space(ctx.tier, id).unwrap())).collect();
     let full: Vec<Value> = full_alphabet().iter().map(|o| o.json()).collect();
     let deep: Vec<Value> = deep_alphabet().iter().map(|o| o.json()).collect();
@@ -1207,7 +1240,7 @@ fn run(ctx: &Ctx) -> i32 {
             spaces,
             cfg: PoolCfg { chunk: 1, case_timeout: std::time::Duration::from_secs(120), ..Default::default() },
             level: "model_checking",
-            rule: "breadth-first exploration of ALL operation histories up to the stated depth over the stated alphabet, from each seeded initial sheet, on the real Worksheet inside a real Spreadsheet (cloned per node). One pool case = (seed, first operation[, second operation]); inside a case states with equal key are merged (key = hash of every cell's map key, own coordinate, value, style, both listings, every by-row/by-column listing, highest/dimension, the row table, the column table and the merge list). In EVERY reached state (including the object left behind by a panicking operation) the invariant is evaluated: brute-force scan of the key set of get_collection_to_hashmap() against own coordinates, get_cell, get_cell_collection, get_cell_collection_sorted (row-major), get_collection_by_row/_by_column (+_to_hashmap) for every row/column of the scan area, get_cell_value_by_range (bounding box, A1:C3, B2:B4), get_highest_column_and_row, calculate_worksheet_dimension, get_row_dimensions; save emission (write_writer into memory, own scanner over xl/worksheets/sheet1.xml) once per distinct state of depth <= save_emission_max_depth. A state that violates the invariant is reported at the operation that produced it and is not expanded. distinct_nontrivial = number of distinct state keys over all cases".into(),
+            rule: "breadth-first exploration of ALL operation histories up to the stated depth over the stated alphabet, from each seeded initial sheet, on the real Worksheet inside a real Spreadsheet (cloned per node). One pool case = (seed, first operation[, second operation]); inside a case states with equal key are merged (key = hash of every cell's map key, own coordinate, value, style, both listings, every by-row/by-column listing, highest/dimension, the row table, the column table and the merge list). In EVERY reached state (including the object left behind by a panicking operation) the invariant is evaluated: brute-force scan of the key set of get_collection_to_hashmap() against own coordinates, get_cell, get_cell_collection, get_cell_collection_sorted (row-major), get_collection_by_row/_by_column (+_to_hashmap) for every row/column of the scan area, get_cell_value_by_range (bounding box when it has at most 4096 positions, A1:C3, B2:B4), get_highest_column_and_row, calculate_worksheet_dimension, get_row_dimensions; save emission (write_writer into memory, own scanner over xl/worksheets/sheet1.xml) once per distinct state of depth <= save_emission_max_depth. A state that violates the invariant is reported at the operation that produced it and is not expanded. distinct_nontrivial = number of distinct state keys over all cases".into(),
             alphabets: json!({"seeds": SEEDS, "operations_full": full, "operations_full_count": full.len(), "operations_deep": deep, "operations_deep_count": deep.len(),
                 "styles": ["0: nothing set", "1: solid fill", "2: bold font"], "window": "A1:C3", "far_cell": a1(FAR.0, FAR.1)}),
             bounds: if thorough {
